@@ -190,7 +190,8 @@ Section Main.
     check_X true false (RN x) = Ok (RA (n_rows x)) /\
     (forall a, check_X a false (RA X) = Ok (RA X)) /\
     (forall b, check_X false b (RN x) = Ok (RN x)) /\
-    (forall r : rep V, match r with RN _ | RA _ => True | _ => forall a b, check_X a b r = Err end).
+    (forall r : rep V, match r with RN _ | RA _ | RNI _ _ => True
+                                   | _ => forall a b, check_X a b r = Err end).
   Proof.
     intro Hwf. unfold check_X. cbn [andb]. repeat split.
     - rewrite (a3_to_nested_eq n c T X Hwf). reflexivity.
